@@ -253,7 +253,7 @@ func (g *G) GenPoolMgmtOp(universe []*RuleDef, cur SetModel, ver *int, kinds []i
 			r := universe[i]
 			sal := r.Sal
 			if g.Pct(35) {
-				sal = g.Range(-2, 2)
+				sal = g.Salience(2)
 			}
 			if old, ok := cur[r.ID]; ok && g.Pct(40) {
 				sal = old.Sal
